@@ -101,6 +101,11 @@ def write_cases(rng, q):
         ops = ["wblock", "awritepat %d %d" % (rng.choice(sizes_all), rng.randrange(256)), "in 00000001aa", "areadnext", "wunblock",
                "awritepat %d %d" % (rng.choice(sizes_all), rng.randrange(256)), "writepat 3 7"]
         cases.append(("case waccept=%d" % rng.choice([0, 2]), ops))
+    # the same CodecConn over a real sonic.Conn (loopback TCP, small send buffer): a large item goes out in many kernel segments,
+    # with would-block in the middle of the item several times; small items before and after it must keep their places
+    for size in ([300000] if q else [300000, 1000000, 4000000]):
+        ops = ["awritepat 5 1", "awritepat %d %d" % (size, rng.randrange(256)), "awritepat 3 9", "in 00000002aabb", "areadnext"]
+        cases.append(("case real=1", ops))
     # interleaved both directions
     for _ in range(20 if q else 300):
         ops = []
